@@ -138,7 +138,7 @@ Proof.
       apply tbl_ok_sub; sp; auto.
   - destruct (sess_ctx st sid) as [s|]; [|apply tbl_ok_refl].
     destruct (s_fab s =? 0); [apply tbl_ok_refl|].
-    destruct (negb (allowed st s)); [apply tbl_ok_refl|].
+    destruct (negb (can_view st s)); [apply tbl_ok_refl|].
     destruct (Nat.leb _ _); [apply tbl_ok_refl|]. apply tbl_ok_same; reflexivity.
   - destruct (table_full st); [apply tbl_ok_refl|]. apply tbl_ok_same; reflexivity.
 Qed.
